@@ -34,16 +34,18 @@ func init() {
 		Rule: "scripted backend result sets: rows of 10 B … 5 MiB in runs, totals around the 16 MiB reader threshold (just below, just above, several chunks) and small; row counts limit-1, limit, limit+1, far above, unlimited (-1); " +
 			"streams ending in EOF, in an ERR packet or by a lost connection, before/inside/after the first chunk; " +
 			"dc = DirectConnection.Execute + FetchMoreRows chunks, un = SessionExecutor.ExecuteSQL + Session.writeResponse (text and binary) read back at the client, sh = ExecuteSQLs over 1–4 slices; " +
+			"ses = whole sessions through the real Session.Run (COM_QUERY / COM_STMT_PREPARE+EXECUTE from an in-memory client): 1–6 statements out of begin / commit / rollback / unsharded SELECT with an answer of 1–3 results (result sets, OK packets, ERR) / sharded SELECT over 1–4 sub-tables on two slices entering above the planner, " +
+			"with keep-session, max_sql_execute_time armed, a client whose connection breaks after k packets, a backend that falls silent (150 ms deadline), and results of 2–3 reader chunks inside transactions, keep-session, multi-result answers and sharded statements; " +
 			"non-trivial = some row was delivered",
 		Generate: genC39,
 		Exec:     execC39,
 		Trivial: func(in core.Sexp, out string) bool {
-			return !strings.Contains(out, "((0 ") && !strings.Contains(out, "(c ((")
+			return !strings.Contains(out, "((0 ") && !strings.Contains(out, "(c ((") && !strings.Contains(out, "(rs ((")
 		},
 		Assumptions: []string{
-			"the backend speaks the MySQL protocol: no zero-length packet inside a result set, nothing after the closing EOF/ERR unless scripted; rows parse (text rows of two string columns)",
-			"no statement time-out (max_sql_execute_time = 0), no transaction / keep-session pinning, no multi-result statements",
-			"the merge of shard results (C02) and the text→binary value conversion (C13) are outside this model: shard results are compared where ExecuteSQLs returns them, binary rows by the id column only",
+			"the backend speaks the MySQL protocol: no zero-length packet inside a result set; rows parse (text rows of two string columns); in the sessions answers are well-formed (a result flagged SERVER_MORE_RESULTS_EXISTS is followed by a result, nothing follows the packet that ends the answer) - dc/un/sh still script packets after the end",
+			"sessions: the pool of a slice holds one connection; a lost backend connection (no EOF/ERR) is not scripted on a connection pinned by a transaction or keep-session, nor a silent backend in a sharded statement under keep-session outside a transaction, nor silence after the first chunk of a streamed result (no deadline there: the session blocks) - see Model/ResultSession.lean",
+			"the merge operators other than concatenation (C02) and the text→binary value conversion (C13) are outside this model: sharded statements are plain SELECT c… FROM t [WHERE k IN (…)], binary rows are compared by the id column only",
 		},
 		Extra: func(r *core.Run) { c39Cleanup() },
 	})
@@ -72,15 +74,23 @@ func c39Items(s core.Sexp) []c39Item {
 }
 
 // c39Pat holds the padding alphabet: pad byte i of row id is c39Pat[id%23+i].
-var c39Pat []byte
+var (
+	c39Pat   []byte
+	c39PatMu sync.Mutex
+)
 
+// c39PatFor returns the alphabet, at least l+23 bytes of it (sharded statements build the
+// answers of their slices concurrently: a longer alphabet is published only when it is filled).
 func c39PatFor(l int) []byte {
+	c39PatMu.Lock()
+	defer c39PatMu.Unlock()
 	if len(c39Pat) < l+23 {
 		n := l + 23 + 1<<20
-		c39Pat = make([]byte, n)
-		for i := range c39Pat {
-			c39Pat[i] = byte('a' + i%23)
+		pat := make([]byte, n)
+		for i := range pat {
+			pat[i] = byte('a' + i%23)
 		}
+		c39Pat = pat
 	}
 	return c39Pat
 }
@@ -111,10 +121,19 @@ func c39RowEquals(p []byte, id, l int) bool {
 }
 
 const c39ErrMsg = "c39-backend-error"
+const c39Unscripted = "c39-unscripted-statement"
 
 type c39Backend struct {
 	mu      sync.Mutex
 	items   []c39Item
+	// next, if set, provides the response to each scripted statement (sessions, c39ses.go);
+	// otherwise the first scripted statement is answered with the single result set `items`
+	next    func(query string) *c39Response
+	dc      *backend.DirectConnection // the proxy's end of this connection, if known
+	desync  int                       // packets of earlier answers still unread when a command arrived (largest value seen)
+	stall   bool                      // the answer in progress ends in silence: reads block until the connection is closed
+	closeCh chan struct{}
+	cmds    int // commands received
 	in      []byte // bytes the backend has sent and the proxy has not read yet start at pos
 	pos     int
 	wbuf    []byte
@@ -149,46 +168,104 @@ func c39Field(name string) []byte {
 	return f.Dump()
 }
 
+// c39Result is one result of an answer: an OK packet or a result set.
+type c39Result struct {
+	okp   bool
+	more  bool // SERVER_MORE_RESULTS_EXISTS in the status of its OK / EOF packets
+	items []c39Item
+}
+
+// c39Response is the answer to one statement; base is the id of its first row.
+type c39Response struct {
+	results []c39Result
+	base    int
+}
+
 func (b *c39Backend) response() []byte {
+	out := b.encode(&c39Response{results: []c39Result{{items: b.items}}})
+	// a single scripted answer: whatever is read beyond it is the end of the connection
+	b.cutAt = true
+	return out
+}
+
+// encode writes the packets of an answer. The connection is lost after an answer whose last
+// result set has no closing EOF/ERR (cutAt), or falls silent there (stall).
+func (b *c39Backend) encode(rsp *c39Response) []byte {
 	seq := uint8(1)
 	total := 256
-	for _, it := range b.items {
-		if it.kind == "r" {
-			sz := c39RowSize(it.l)
-			total += it.n * (sz + 4*(sz/mysql.MaxPacketSize+1))
-		} else {
-			total += 64
+	for _, rs := range rsp.results {
+		total += 256
+		for _, it := range rs.items {
+			if it.kind == "r" {
+				sz := c39RowSize(it.l)
+				total += it.n * (sz + 4*(sz/mysql.MaxPacketSize+1))
+			} else {
+				total += 64
+			}
 		}
 	}
 	out := make([]byte, 0, total)
-	out = c39Frame(out, &seq, []byte{2})
-	out = c39Frame(out, &seq, c39Field("id"))
-	out = c39Frame(out, &seq, c39Field("pad"))
-	out = c39Frame(out, &seq, []byte{mysql.EOFHeader, 0, 0, 2, 0})
-	id := 0
-	b.cutAt = true
+	id := rsp.base
+	b.cutAt = len(rsp.results) == 0 // no result at all: the connection is lost
+	b.stall = false
 	var scratch []byte
-	for _, it := range b.items {
-		switch it.kind {
-		case "r":
-			sz := c39RowSize(it.l)
-			for k := 0; k < it.n; k++ {
-				if sz < mysql.MaxPacketSize {
-					// single frame, written in place
-					out = append(out, byte(sz), byte(sz>>8), byte(sz>>16), seq)
-					seq++
-					out = c39AppendRow(out, id, it.l)
-				} else {
-					scratch = c39AppendRow(scratch[:0], id, it.l)
-					out = c39Frame(out, &seq, scratch)
-				}
-				id++
-			}
-		case "eof":
-			out = c39Frame(out, &seq, []byte{mysql.EOFHeader, 0, 0, 2, 0})
-		case "err":
+results:
+	for _, rs := range rsp.results {
+		status := byte(2)
+		if rs.more {
+			status |= byte(mysql.ServerMoreResultsExists)
+		}
+		if rs.okp {
+			out = c39Frame(out, &seq, []byte{mysql.OKHeader, 0, 0, status, 0, 0, 0})
+			continue
+		}
+		if len(rs.items) > 0 && rs.items[0].kind == "errp" {
+			// an ERR packet instead of the result
 			e := []byte{mysql.ErrHeader, 0x51, 0x04, '#', 'H', 'Y', '0', '0', '0'}
 			out = c39Frame(out, &seq, append(e, c39ErrMsg...))
+			break
+		}
+		if len(rs.items) > 0 && rs.items[0].kind == "stall0" {
+			// silence instead of the result
+			b.stall = true
+			break
+		}
+		out = c39Frame(out, &seq, []byte{2})
+		out = c39Frame(out, &seq, c39Field("id"))
+		out = c39Frame(out, &seq, c39Field("pad"))
+		out = c39Frame(out, &seq, []byte{mysql.EOFHeader, 0, 0, status, 0})
+		ended := false
+		for _, it := range rs.items {
+			switch it.kind {
+			case "r":
+				sz := c39RowSize(it.l)
+				for k := 0; k < it.n; k++ {
+					if sz < mysql.MaxPacketSize {
+						// single frame, written in place
+						out = append(out, byte(sz), byte(sz>>8), byte(sz>>16), seq)
+						seq++
+						out = c39AppendRow(out, id, it.l)
+					} else {
+						scratch = c39AppendRow(scratch[:0], id, it.l)
+						out = c39Frame(out, &seq, scratch)
+					}
+					id++
+				}
+			case "eof":
+				out = c39Frame(out, &seq, []byte{mysql.EOFHeader, 0, 0, status, 0})
+				ended = true
+			case "err":
+				e := []byte{mysql.ErrHeader, 0x51, 0x04, '#', 'H', 'Y', '0', '0', '0'}
+				out = c39Frame(out, &seq, append(e, c39ErrMsg...))
+				ended = true
+			case "stall":
+				b.stall = true
+				break results
+			}
+		}
+		if !ended {
+			b.cutAt = true
+			break
 		}
 	}
 	return out
@@ -211,7 +288,29 @@ func (b *c39Backend) Write(p []byte) (int, error) {
 		if l > 0 {
 			switch payload[0] {
 			case mysql.ComQuery:
-				if strings.HasPrefix(string(payload[1:]), "SELECT /*c39*/") && !b.served {
+				q := string(payload[1:])
+				if b.next != nil {
+					if n := b.unreadLocked(); n > b.desync {
+						b.desync = n
+					}
+				}
+				if b.next != nil && (strings.HasPrefix(q, "SELECT") || strings.HasPrefix(q, "CALL")) && strings.Contains(q, "pad") {
+					b.served = true
+					var r []byte
+					if rsp := b.next(q); rsp != nil {
+						r = b.encode(rsp)
+					} else {
+						e := []byte{mysql.ErrHeader, 0x51, 0x04, '#', 'H', 'Y', '0', '0', '0'}
+						r = append([]byte{byte(len(e) + len(c39Unscripted)), 0, 0, 1}, append(e, c39Unscripted...)...)
+					}
+					b.total = len(r)
+					if b.pos >= len(b.in) {
+						b.in, b.pos, b.respOff = r, 0, 0
+					} else {
+						b.respOff = len(b.in)
+						b.in = append(b.in, r...)
+					}
+				} else if b.next == nil && strings.HasPrefix(q, "SELECT /*c39*/") && !b.served {
 					b.served = true
 					r := b.response()
 					b.total = len(r)
@@ -237,27 +336,67 @@ func (b *c39Backend) Write(p []byte) (int, error) {
 
 func (b *c39Backend) Read(p []byte) (int, error) {
 	b.mu.Lock()
-	defer b.mu.Unlock()
 	if b.closed {
+		b.mu.Unlock()
 		return 0, io.ErrClosedPipe
 	}
 	if b.pos >= len(b.in) {
+		if b.stall {
+			// the backend has fallen silent: the read blocks until the connection is closed
+			if b.closeCh == nil {
+				b.closeCh = make(chan struct{})
+			}
+			ch := b.closeCh
+			b.mu.Unlock()
+			<-ch
+			return 0, io.ErrClosedPipe
+		}
 		if !b.served || !b.cutAt {
 			b.starved = true
 		}
+		b.mu.Unlock()
 		return 0, io.EOF
 	}
 	n := copy(p, b.in[b.pos:])
 	b.pos += n
+	b.mu.Unlock()
 	return n, nil
 }
 
 func (b *c39Backend) Close() error {
 	b.mu.Lock()
-	b.closed = true
+	if !b.closed {
+		b.closed = true
+		if b.closeCh == nil {
+			b.closeCh = make(chan struct{})
+		}
+		close(b.closeCh)
+	}
 	b.mu.Unlock()
 	return nil
 }
+
+// unreadLocked counts the packets sent to the proxy that it has not consumed yet.
+func (b *c39Backend) unreadLocked() int {
+	buffered := 0
+	if b.dc != nil {
+		buffered = b.dc.VerifC39Buffered()
+	}
+	off := b.pos - buffered
+	if off < 0 {
+		off = 0
+	}
+	n := 0
+	for off+4 <= len(b.in) {
+		l := int(b.in[off]) | int(b.in[off+1])<<8 | int(b.in[off+2])<<16
+		off += 4 + l
+		if l < mysql.MaxPacketSize {
+			n++
+		}
+	}
+	return n
+}
+
 func (b *c39Backend) LocalAddr() net.Addr                { return c11Addr{} }
 func (b *c39Backend) RemoteAddr() net.Addr               { return c11Addr{} }
 func (b *c39Backend) SetDeadline(t time.Time) error      { return nil }
@@ -349,6 +488,8 @@ func c39ErrKind(msg string) string {
 		return "limit"
 	case strings.Contains(msg, c39ErrMsg):
 		return "backend"
+	case strings.Contains(msg, "execution timed out"):
+		return "timeout"
 	}
 	return "conn"
 }
@@ -401,7 +542,8 @@ func c39Manager() (*server.Manager, error) {
 		slices = append(slices, fmt.Sprintf(`{"name":"slice-%d","user_name":"u","password":"p","master":"127.0.0.1:%d","capacity":2,"max_capacity":4,"idle_timeout":3600}`, i, 1+i))
 	}
 	nsJSON := `{"name":"` + c39NS + `","online":true,"read_only":false,"allowed_dbs":{"db_ks":true},"default_phy_dbs":{"db_ks":"db_ks"},` +
-		`"slices":[` + strings.Join(slices, ",") + `],"shard_rules":[],` +
+		`"slices":[` + strings.Join(slices, ",") + `],` +
+		`"shard_rules":[{"db":"db_ks","table":"tbl_ks","type":"mod","key":"id","locations":[2,2],"slices":["slice-0","slice-1"]}],` +
 		`"users":[{"user_name":"c39","password":"c39","namespace":"` + c39NS + `","rw_flag":2,"rw_split":0}],` +
 		`"default_slice":"slice-0","max_sql_execute_time":0,"max_sql_result_size":-1}`
 	c39Mgr, c39MgrErr = server.VerifC39NewManager(proxyINI, nsJSON)
@@ -541,6 +683,8 @@ func execC39(in core.Sexp) string {
 	}
 	sql := "SELECT /*c39*/ id, pad FROM t"
 	switch in.Head() {
+	case "ses":
+		return execC39Ses(m, in)
 	case "dc":
 		maxRows := int(in.Nth(1).Int())
 		items := c39Items(in.Nth(2))
@@ -872,6 +1016,7 @@ func genC39(g *core.Gen) {
 		st2 := c39GenChunks(g, chunks)
 		g.Emit(core.L(core.A("sh"), core.I(-1), core.L(c39GenStream(g, false).sexp(), st2.sexp())), "sh", "sh-big", st2.tag)
 	}
+	genC39Ses(g)
 	nShBig := g.Scale(4, 12)
 	for i := 0; i < nShBig; i++ {
 		k := 1 + g.Intn(3)
